@@ -266,6 +266,14 @@ def t_int(I, args, kw, node):
     s = as_sbytes(v)
     if s is not None or isinstance(v, str):
         base = args[1] if len(args) > 1 else kw.get("base", 10)
+        if s is not None and not isinstance(s.n, int) and getattr(I.current_contract, "abstract_numbers", False) and len(args) == 1:
+            # the numeric value of a lexeme is a function of its bytes (A-LIB); int() may reject it
+            from .absval import SFun
+            ok = I.ctx.choose([True, False], "int()-accepts")
+            I.ctx.choice_log.append(("int", ok))
+            if ok:
+                return SFun("int", [s], int)
+            raise _sx().SymRaise(ValueError, "int() literal")
         return int_of_digits(I, v, base, node)
     hook = getattr(v, "__sym_int__", None)
     if hook:
@@ -340,6 +348,13 @@ def t_float(I, args, kw, node):
     hook = getattr(v, "__sym_float__", None)
     if hook:
         return hook(I, node)
+    if isinstance(v, SBytes) and getattr(I.current_contract, "abstract_numbers", False):
+        from .absval import SFun
+        ok = I.ctx.choose([True, False], "float()-accepts")
+        I.ctx.choice_log.append(("float", ok))
+        if ok:
+            return SFun("float", [v], float)
+        raise _sx().SymRaise(ValueError, "float() literal")
     if v is None or isinstance(v, (list, tuple, dict, SObj, SOpaque)):
         raise _sx().SymRaise(TypeError, "float() of %s" % type(v).__name__)
     raise SymError("float() of %s" % type(v).__name__)
@@ -453,6 +468,12 @@ def t_str(I, args, kw, node):
             return str(v, *args[1:])
         except UnicodeDecodeError:
             raise _sx().SymRaise(UnicodeDecodeError, "str()")
+    if isinstance(v, SBytes) and len(args) > 1:
+        # str(b, "utf-8"): a function of the bytes; may raise UnicodeDecodeError
+        from .absval import SFun
+        if I.ctx.choose([True, False], "decodes"):
+            return SFun("str", [v] + list(args[1:]), str)
+        raise _sx().SymRaise(UnicodeDecodeError, "str()")
     if L.any_z3(v) or isinstance(v, (SBytes, SObj, SList)):
         hook = getattr(I.summ, "str_of_symbolic", None)
         return "<str>"
